@@ -20,6 +20,11 @@ var pkgIntrinsics = map[string]func(m *Machine, fn *ssa.Function, args []Value) 
 }
 
 func zeroResults(m *Machine, fn *ssa.Function, args []Value) Value {
+	switch fn.Name() {
+	case "Fatal", "Fatalf", "Fatalln", "Exit", "Exitf", "Exitln", "FatalDepth", "ExitDepth":
+		// klog.Fatal* / Exit* terminate the process
+		panic(pathEnd{kind: "exit", msg: "klog." + fn.Name()})
+	}
 	res := fn.Signature.Results()
 	switch res.Len() {
 	case 0:
